@@ -46,6 +46,11 @@ def one(req):
 
 
 def main():
+    import os
+    if os.environ.get("D42_CHILD_RECURSIONLIMIT"):
+        sys.setrecursionlimit(int(os.environ["D42_CHILD_RECURSIONLIMIT"]))
+    if os.environ.get("D42_CHILD_CWD"):
+        os.chdir(os.environ["D42_CHILD_CWD"])
     jobs = json.load(sys.stdin)          # list of {"seed": repr, "schemas": [...], "repeat": n}
     json.dump([one(j) for j in jobs], sys.stdout)
 
